@@ -226,6 +226,9 @@ def formula_src(world, var, start, expr) -> str:
         # spec-level meaning of an annualised variable, written from the statement:
         # months other than January yield that year's January value
         pre = "        period = period.this_year.first_month if period.start.month != 1 else period\n"
+        if isinstance(var["annualized"], dict):
+            a, b = var["annualized"]["within"]
+            pre = f"        period = period.this_year.first_month if period.start.month != 1 and {a!r} <= str(period.start) <= {b!r} else period\n"
     return (
         f"    def {name}({args}):\n"
         f"{pre}"
